@@ -11,6 +11,7 @@ func filepathClean(s string) string { return filepath.Clean(s) }
 func registerModels(in *Interp) {
 	registerFSModels(in)
 	registerFSTable(in)
+	registerHTTPModels(in)
 }
 
 // ---------------------------------------------------------------- path / file-system stubs
